@@ -2,6 +2,7 @@
 // @also C14 C08
 // @engine B
 // @entry vfh_C07_containers
+// @shared_state_watch
 // @tier Q
 // @opts max_steps=30000000
 // @reach containers.done
